@@ -81,18 +81,21 @@ if state(S)["named_itemspaces"] or state(S)["dynamic_subs"]:
     bad.append("b: residue %r" % (state(S),))
 try:
     S.extra = {"z": 1}
+    usable = True
 except Exception as e:                       # noqa
-    print("   later S.extra = {'z': 1} -> %s: %s;  'extra' in S.refs now: %s" % (type(e).__name__, e, "extra" in S.refs))
+    print("   later S.extra = {'z': 1} -> %s: %s;  'extra' in S.refs now: %s  (the space cannot be edited any more)"
+          % (type(e).__name__, e, "extra" in S.refs))
     bad.append("b: a later reference assignment raised %s half-way" % type(e).__name__)
-    S.extra = {"z": 1}
-later_edits("b", m, S)
-try:
-    v = S[1].foo(2)
-    if v != 3:
-        bad.append("b: S[1].foo(2) = %r after repair of the formula, expected 3" % (v,))
-except Exception as e:                       # noqa
-    bad.append("b: S[1] after the repair raised %s" % type(e).__name__)
-    print("   S[1] after the repair ->", type(e).__name__, e)
+    usable = False
+if usable:
+    later_edits("b", m, S)
+    try:
+        v = S[1].foo(2)
+        if v != 3:
+            bad.append("b: S[1].foo(2) = %r after repair of the formula, expected 3" % (v,))
+    except Exception as e:                   # noqa
+        bad.append("b: S[1] after the repair raised %s" % type(e).__name__)
+        print("   S[1] after the repair ->", type(e).__name__, e)
 m.close()
 
 # ---- (c) the construction fails at its very end: a relative reference of the base points out of its tree
